@@ -90,4 +90,32 @@ theorem indexOf?_spec (xs : List String) (x : String) (k : Nat) (h : indexOf? xs
   have := indexOf?_go_spec xs x 0 k h
   simpa using this.2
 
+theorem seqM_map_ok {α β} (l : List α) (g : α → M β) (h : ∀ x ∈ l, ∃ v, g x = .ok v) :
+    ∃ vs, seqM (l.map g) = .ok vs := by
+  induction l with
+  | nil => exact ⟨[], rfl⟩
+  | cons x xs ih =>
+    obtain ⟨v, hv⟩ := h x (by simp)
+    obtain ⟨vs, hvs⟩ := ih fun y hy => h y (by simp [hy])
+    exact ⟨v :: vs, by simp [seqM, hv, hvs]⟩
+
+/-- a point of the segment between two points of a closed interval lies in the interval -/
+theorem segment_in (lo hi x1 x2 : Rat) (j n : Nat) (hn : 2 ≤ n) (hj : j < n)
+    (h1 : lo ≤ x1 ∧ x1 ≤ hi) (h2 : lo ≤ x2 ∧ x2 ≤ hi) :
+    lo ≤ x1 + (j : Rat) * ((x2 - x1) / ((n : Rat) - 1)) ∧ x1 + (j : Rat) * ((x2 - x1) / ((n : Rat) - 1)) ≤ hi := by
+  have hn' : (0 : Rat) < (n : Rat) - 1 := by
+    have : (2 : Rat) ≤ (n : Rat) := by exact_mod_cast hn
+    linarith
+  have hj0 : (0 : Rat) ≤ (j : Rat) := by exact_mod_cast Nat.zero_le j
+  have hj1 : (j : Rat) ≤ (n : Rat) - 1 := by
+    have : (j : Rat) + 1 ≤ (n : Rat) := by exact_mod_cast hj
+    linarith
+  have e : x1 + (j : Rat) * ((x2 - x1) / ((n : Rat) - 1)) =
+      (1 - (j : Rat) / ((n : Rat) - 1)) * x1 + ((j : Rat) / ((n : Rat) - 1)) * x2 := by
+    field_simp; ring
+  have t0 : 0 ≤ (j : Rat) / ((n : Rat) - 1) := div_nonneg hj0 hn'.le
+  have t1 : (j : Rat) / ((n : Rat) - 1) ≤ 1 := by rw [div_le_one hn']; exact hj1
+  rw [e]
+  constructor <;> nlinarith [h1.1, h1.2, h2.1, h2.2]
+
 end DFV.C02
